@@ -105,7 +105,9 @@ static void fatal_sig(int sig) {
   (void)k;
   _exit(72);
 }
+extern "C" void __sanitizer_print_stack_trace(void) __attribute__((weak));
 extern "C" void abort(void) {
+  if (__sanitizer_print_stack_trace) __sanitizer_print_stack_trace();   // instrumented build: who called abort / std::terminate (stderr)
   const char *m = "{\"fatal\":\"abort\"}\n";
   ssize_t k = write(PROTO, m, strlen(m));
   (void)k;
